@@ -274,11 +274,11 @@ theorem tie_lockedDo_retry (s : LC.St) (t : Tid) (x : Nat) (h : s.pc t = .b3) (h
 
 /-- the closure of `GetResource` / `Cache.Take`: found → exit 0 (the stored instance, no load); load failed → exit 1
 (the error, nothing stored); else exit 2 (store, return the new instance) — rows g3 and g5 branch the same way. -/
-theorem tie_closure_branch_g3 (s : RM.St) (t : Tid) (x : Nat) (h : s.pc t = .g3) :
+theorem tie_closure_branch_g3 (s : RM.St) (t : Tid) (x : Nat) (h : s.pc t = .g3) (hx : x = 0 ∨ s.cfg.lerr = false) :
     (RM.step s t x).map (fun s' => s'.pc t) =
       some (if getResourceClosureBranch (s.found t) false = 0 then .m2 else .g4) := by
   unfold RM.step; rw [h]
-  cases hf : s.found t <;> simp [getResourceClosureBranch, upd]
+  cases hf : s.found t <;> rcases hx with hx | hx <;> simp [getResourceClosureBranch, upd, hx]
 theorem tie_closure_branch_g5 (s : RM.St) (t : Tid) (x : Nat) (h : s.pc t = .g5) :
     (RM.step s t x).map (fun s' => s'.pc t) =
       some (if getResourceClosureBranch false (x == 0) = 1 then .m2 else .g6) := by
@@ -301,7 +301,7 @@ theorem tie_cfg_users :
     Cfg.getResource = { pre := false, asrt := true } ∧
     cacheNodeDoTakeShape.head? = some "func{" ∧ cacheNodeDoTakeShape.getLast? = some "return <call>" ∧
     cacheNodeDoTakeShape.contains "call jsonx.Unmarshal(val.([]byte), v)" = true ∧
-    Cfg.doTake = { pre := false, asrt := true } := by decide
+    Cfg.doTake = { pre := false, asrt := true, lerr := true } ∧ Cfg.getResource.lerr = false ∧ Cfg.cacheTake.lerr = false := by decide
 theorem tie_front_lookup_p3 (s : RM.St) (t : Tid) (x : Nat) (h : s.pc t = .p3) :
     (RM.step s t x).map (fun s' => s'.pc t) =
       some (if collectionTakeBranch (s.found t) false false = 0 then .idle else .l0) := by
@@ -316,5 +316,208 @@ theorem tie_wgAdd_model (s : SF.St) (l : LC.St) (t : Tid) (x : Nat) :
   constructor <;> intro h
   · unfold SF.step; rw [h]; simp [upd]
   · unfold LC.step; rw [h]; simp [upd]
+
+/-! ### Round 5: the ORDER OF EFFECTS as typed lists (extract/c07.go `c07Effects`) with a semantic reading: every row of
+the models does to the state exactly what the effect read from the source at that position says (`sf_eff_sound`,
+`lc_eff_sound`: for ALL states, goroutines and inputs). -/
+
+/-- the effect each `SF` row stands for. -/
+def sfEff : SF.PC → Eff
+  | .l0 => .lock "g.lock" | .l1 => .mapGet "g.calls" "key" | .w0 => .unlock "g.lock" | .w1 => .wgWait "c.wg"
+  | .n0 => .alloc "c" | .n1 => .wgAdd "c.wg" 1 | .n2 => .mapSet "g.calls" "key" "c" | .n3 => .unlock "g.lock"
+  | .m0 => .callFn | .m2 => .store "c.val"
+  | .d0 => .lock "g.lock" | .d1 => .mapDel "g.calls" "key" | .d2 => .unlock "g.lock" | .d3 => .wgDone "c.wg"
+  | _ => .other "-"
+
+theorem tie_createCall_effects : createCallEffects =
+    [sfEff .l0, sfEff .l1, .ifc "ok", sfEff .w0, sfEff .w1, .ret "c, true", .close,
+     sfEff .n0, sfEff .n1, sfEff .n2, sfEff .n3, .ret "c, false"] := by decide
+
+/-- the cleanup is registered (`defer`) BEFORE the user's function is called; inside it: lock, delete, unlock, Done. -/
+theorem tie_makeCall_effects : makeCallEffects =
+    [.deferBegin, .funcBegin, sfEff .d0, sfEff .d1, sfEff .d2, sfEff .d3, .close, .callLit, .close,
+     sfEff .m0, sfEff .m2, .store "c.err"] := by decide
+
+/-- what an effect does to the state of `SF` when goroutine `t` performs it (`s` before, `s'` after). -/
+def sfEffSem (e : Eff) (s s' : SF.St) (t : Tid) : Prop :=
+  match e with
+  | .lock _ => s.lock = none ∧ s'.lock = some t ∧ s'.calls = s.calls ∧ s'.wg = s.wg
+  | .unlock _ => s'.lock = none ∧ s'.calls = s.calls ∧ s'.wg = s.wg
+  | .mapGet _ _ => s'.calls = s.calls ∧ s'.lock = s.lock ∧ s'.wg = s.wg ∧ (∀ c, s.calls (s.key t) = some c → s'.reg t = c)
+  | .mapSet _ _ _ => s'.calls (s.key t) = some (s.reg t) ∧ (∀ k, k ≠ s.key t → s'.calls k = s.calls k) ∧ s'.lock = s.lock
+  | .mapDel _ _ => s'.calls (s.key t) = none ∧ (∀ k, k ≠ s.key t → s'.calls k = s.calls k) ∧ s'.lock = s.lock
+  | .wgAdd _ n => (s'.wg (s.reg t) : Int) = s.wg (s.reg t) + n ∧ s'.calls = s.calls
+  | .wgDone _ => s'.wg (s.reg t) = s.wg (s.reg t) - 1 ∧ s'.calls = s.calls ∧ s'.lock = s.lock
+  | .wgWait _ => s.wg (s.reg t) = 0 ∧ s'.wg = s.wg ∧ s'.calls = s.calls
+  | .alloc _ => s'.reg t = s.next ∧ s'.next = s.next + 1 ∧ s'.wg s.next = 0 ∧ s'.cval s.next = 0 ∧ s'.calls = s.calls
+  | .store _ => s'.cval (s.reg t) = s.tmp t ∧ s'.calls = s.calls ∧ s'.wg = s.wg
+  | _ => True
+
+/-- every step of the model performs the effect its row is tied to — for all states, goroutines and inputs. -/
+theorem sf_eff_sound (s s' : SF.St) (t : Tid) (x : Nat) (h : SF.step s t x = some s') :
+    sfEffSem (sfEff (s.pc t)) s s' t := by
+  unfold SF.step at h
+  cases hpc : s.pc t <;> rw [hpc] at h <;> simp only [sfEff, sfEffSem] <;>
+    (try split at h) <;> (try split at h) <;> simp at h <;> (try subst h) <;> simp_all [upd] <;> (try omega)
+
+/-- the effect each `LC` row stands for. -/
+def lcEff : LC.PC → Eff
+  | .b0 => .lock "lg.mu" | .b1 => .mapGet "lg.m" "key" | .b2 => .unlock "lg.mu" | .b3 => .wgWait "wg"
+  | .c0 => .alloc "wg" | .c1 => .wgAdd "wg" 1 | .c2 => .mapSet "lg.m" "key" "&wg" | .c3 => .unlock "lg.mu"
+  | .f0 => .callFn
+  | .e0 => .lock "lg.mu" | .e1 => .mapDel "lg.m" "key" | .e2 => .unlock "lg.mu" | .e3 => .wgDone "wg"
+  | _ => .other "-"
+
+theorem tie_lockedDo_effects : lockedDoEffects =
+    [.label "begin", lcEff .b0, lcEff .b1, .ifc "ok", lcEff .b2, lcEff .b3, .goto_ "begin", .close,
+     .call "lg.makeCall(key, fn)", .ret "<call>"] := by decide
+
+/-- register (alloc, Add(1), publish) and unlock BEFORE the deferred cleanup is registered and `fn` is called. -/
+theorem tie_lockedMakeCall_effects : lockedMakeCallEffects =
+    [lcEff .c0, lcEff .c1, lcEff .c2, lcEff .c3, .deferBegin, .funcBegin, lcEff .e0, lcEff .e1, lcEff .e2, lcEff .e3,
+     .close, .callLit, .close, lcEff .f0, .ret "<call>"] := by decide
+
+def lcEffSem (e : Eff) (s s' : LC.St) (t : Tid) : Prop :=
+  match e with
+  | .lock _ => s.lock = none ∧ s'.lock = some t ∧ s'.m = s.m ∧ s'.wg = s.wg
+  | .unlock _ => s'.lock = none ∧ s'.m = s.m ∧ s'.wg = s.wg
+  | .mapGet _ _ => s'.m = s.m ∧ s'.lock = s.lock ∧ s'.wg = s.wg ∧ (∀ c, s.m (s.key t) = some c → s'.reg t = c)
+  | .mapSet _ _ _ => s'.m (s.key t) = some (s.reg t) ∧ (∀ k, k ≠ s.key t → s'.m k = s.m k) ∧ s'.lock = s.lock
+  | .mapDel _ _ => s'.m (s.key t) = none ∧ (∀ k, k ≠ s.key t → s'.m k = s.m k) ∧ s'.lock = s.lock
+  | .wgAdd _ n => (s'.wg (s.reg t) : Int) = s.wg (s.reg t) + n ∧ s'.m = s.m
+  | .wgDone _ => s'.wg (s.reg t) = s.wg (s.reg t) - 1 ∧ s'.m = s.m ∧ s'.lock = s.lock
+  | .wgWait _ => s.wg (s.reg t) = 0 ∧ s'.wg = s.wg ∧ s'.m = s.m
+  | .alloc _ => s'.reg t = s.next ∧ s'.next = s.next + 1 ∧ s'.wg s.next = 0 ∧ s'.m = s.m
+  | _ => True
+
+theorem lc_eff_sound (s s' : LC.St) (t : Tid) (x : Nat) (h : LC.step s t x = some s') :
+    lcEffSem (lcEff (s.pc t)) s s' t := by
+  unfold LC.step at h
+  cases hpc : s.pc t <;> rw [hpc] at h <;> simp only [lcEff, lcEffSem] <;>
+    (try split at h) <;> (try split at h) <;> simp at h <;> (try subst h) <;> simp_all [upd] <;> (try omega)
+
+/-- the closure of `GetResource`: read-locked lookup, `create`, write-locked store (unlock deferred); `Inject`: one
+write-locked store — the rows g0…g8 of `RM` and `RM.inject`. -/
+theorem tie_getResource_effects : getResourceEffects =
+    [.funcBegin, .rlock "manager.lock", .mapGet "manager.resources" "key", .runlock "manager.lock", .ifc "ok",
+     .ret "resource, nil", .close, .call "create()", .ifc "err != nil", .ret "nil, err", .close,
+     .lock "manager.lock", .deferBegin, .unlock "manager.lock", .close, .mapSet "manager.resources" "key" "resource",
+     .ret "resource, nil", .close, .call "manager.singleFlight.Do(key, func)", .ifc "err != nil", .ret "nil, err", .close,
+     .ret "val.(io.Closer), nil"] ∧
+    rmInjectEffects = [.lock "manager.lock", .mapSet "manager.resources" "key" "resource", .unlock "manager.lock"] := by decide
+
+/-- the rows g0…g8 of `RM` do what these effects say: read lock / lookup / read unlock / write lock / store / unlock. -/
+theorem rm_eff_sound (s s' : RM.St) (t : Tid) (x : Nat) (h : RM.step s t x = some s') :
+    (s.pc t = .g0 → s.rw = none ∧ s'.nrd = s.nrd + 1 ∧ s'.res = s.res) ∧
+    (s.pc t = .g1 → s'.found t = (s.res (s.key t)).isSome ∧ s'.res = s.res ∧ (∀ v, s.res (s.key t) = some v → s'.loc t = v)) ∧
+    (s.pc t = .g2 → s'.nrd = s.nrd - 1 ∧ s'.res = s.res) ∧
+    (s.pc t = .g6 → s.rw = none ∧ s.nrd = 0 ∧ s'.rw = some t ∧ s'.res = s.res) ∧
+    (s.pc t = .g7 → s'.res (s.key t) = some (s.loc t) ∧ ∀ k, k ≠ s.key t → s'.res k = s.res k) ∧
+    (s.pc t = .g8 → s'.rw = none ∧ s'.res = s.res) := by
+  refine ⟨?_, ?_, ?_, ?_, ?_, ?_⟩ <;> intro hpc <;> simp only [RM.step, hpc] at h <;> (try split at h) <;>
+    simp at h <;> (try subst h) <;> simp_all [upd]
+
+/-! ### Round 5: forwarded argument lists of the delegating entry points (extract/c07.go `c07Forward`), read
+semantically: `fwd codes params litParams` is the argument list the callee receives (`none`: not a parameter — a
+literal, `context.Background()`, a local).  For ALL arguments the callee gets the caller's values in the right
+positions: a dropped, swapped or replaced argument breaks these. -/
+def fwd {α : Type} (codes : List Int) (ps ls : List α) : List (Option α) :=
+  codes.map fun c => if c < 0 then none else if c < 100 then ps[c.toNat]? else ls[(c - 100).toNat]?
+
+/-- `Do` / `DoEx` hand their `key` to `createCall` and `(c, key, fn)` to `makeCall`; `lockedGroup.Do` hands `(key, fn)` on. -/
+theorem tie_fwd_syncx {α : Type} (key fn : α) :
+    fwd doFwdCreateCall [key, fn] [] = [some key] ∧ fwd doExFwdCreateCall [key, fn] [] = [some key] ∧
+    fwd doFwdMakeCall [key, fn] [] = [none, some key, some fn] ∧ fwd doExFwdMakeCall [key, fn] [] = [none, some key, some fn] ∧
+    fwd lockedDoFwdMakeCall [key, fn] [] = [some key, some fn] ∧
+    fwd getResourceFwdDo [key, fn] [] = [some key, none] ∧ getResourceFwdDo = [0, -3] := by
+  simp [fwd, doFwdCreateCall, doExFwdCreateCall, doFwdMakeCall, doExFwdMakeCall, lockedDoFwdMakeCall, getResourceFwdDo]
+
+/-- `collection.Cache.Take(key, fetch)`: the flight is keyed by the caller's key, the closure stores under the SAME key;
+`Set(key, value)` forwards both to `SetWithExpire`. -/
+theorem tie_fwd_collection {α : Type} (key fetch value : α) :
+    fwd collectionTakeFwdDo [key, fetch] [] = [some key, none] ∧ collectionTakeFwdDo = [0, -3] ∧
+    fwd collectionTakeFwdSet [key, fetch] [] = [some key, none] ∧
+    fwd collectionSetFwd [key, value] [] = [some key, some value, none] := by
+  simp [fwd, collectionTakeFwdDo, collectionTakeFwdSet, collectionSetFwd]
+
+/-- the four entry points of `cacheNode`: `Take(val, key, query)` = `TakeCtx(Background, val, key, query)` =
+`doTake(ctx, val, key, query, {SetCtx(ctx, key, v)})`; likewise `TakeWithExpire`; `SetCtx` forwards `(ctx, key, val)`. -/
+theorem tie_fwd_cacheNode_entry {α : Type} (ctx val key query v : α) :
+    fwd cacheNodeTakeFwd [val, key, query] [] = [none, some val, some key, some query] ∧ cacheNodeTakeFwd.head? = some (-2) ∧
+    fwd cacheNodeTakeCtxFwd [ctx, val, key, query] [] = [some ctx, some val, some key, some query, none] ∧
+    fwd cacheNodeTakeCtxFwdSet [ctx, val, key, query] [v] = [some ctx, some key, some v] ∧
+    fwd cacheNodeTakeWithExpireFwd [val, key, query] [] = [none, some val, some key, some query] ∧
+    cacheNodeTakeWithExpireFwd.head? = some (-2) ∧
+    fwd cacheNodeTakeWithExpireCtxFwd [ctx, val, key, query] [] = [some ctx, some val, some key, none, none] ∧
+    fwd cacheNodeTakeWithExpireCtxFwdQuery [ctx, val, key, query] [v] = [some v, none] ∧
+    fwd cacheNodeTakeWithExpireCtxFwdSet [ctx, val, key, query] [v] = [some ctx, some key, some v, none] ∧
+    fwd cacheNodeSetCtxFwd [ctx, key, val] [] = [some ctx, some key, some val, none] := by
+  simp [fwd, cacheNodeTakeFwd, cacheNodeTakeCtxFwd, cacheNodeTakeCtxFwdSet, cacheNodeTakeWithExpireFwd,
+    cacheNodeTakeWithExpireCtxFwd, cacheNodeTakeWithExpireCtxFwdQuery, cacheNodeTakeWithExpireCtxFwdSet, cacheNodeSetCtxFwd]
+
+/-- `doTake(ctx, v, key, query, cacheVal)`: the flight is keyed by `key`; the closure reads the cache for `(ctx, key)` into
+the caller's `v`, runs `query(v)`, `cacheVal(v)`, and on not-found writes the placeholder for `(ctx, key)`;
+`doGetCache(ctx, key, v)` reads `(ctx, key)`; `setCacheWithNotFound(ctx, key)` writes the placeholder under `key`. -/
+theorem tie_fwd_doTake {α : Type} (ctx v key query cacheVal : α) :
+    fwd cacheNodeDoTakeFwdDoEx [ctx, v, key, query, cacheVal] [] = [some key, none] ∧
+    fwd cacheNodeDoTakeFwdDoGetCache [ctx, v, key, query, cacheVal] [] = [some ctx, some key, some v] ∧
+    fwd cacheNodeDoTakeFwdQuery [ctx, v, key, query, cacheVal] [] = [some v] ∧
+    fwd cacheNodeDoTakeFwdCacheVal [ctx, v, key, query, cacheVal] [] = [some v] ∧
+    fwd cacheNodeDoTakeFwdNotFound [ctx, v, key, query, cacheVal] [] = [some ctx, some key] ∧
+    fwd cacheNodeDoGetCacheFwdGet [ctx, key, v] [] = [some ctx, some key] ∧
+    fwd cacheNodeSetNotFoundFwd [ctx, key] [] = [some ctx, some key, none, none] := by
+  simp [fwd, cacheNodeDoTakeFwdDoEx, cacheNodeDoTakeFwdDoGetCache, cacheNodeDoTakeFwdQuery, cacheNodeDoTakeFwdCacheVal,
+    cacheNodeDoTakeFwdNotFound, cacheNodeDoGetCacheFwdGet, cacheNodeSetNotFoundFwd]
+
+/-- negative caching: the placeholder is written with SETNX under the caller's key (in the model: the instance the
+not-found execution "created", stored by rows g6…g8; `rm_not_found_consistent`). -/
+theorem tie_setCacheWithNotFound : cacheNodeSetCacheWithNotFoundShape =
+    ["call c.aroundDuration(c.notFoundExpiry)", "call ttlSeconds(c.aroundDuration(c.notFoundExpiry))",
+     "call c.rds.SetnxExCtx(ctx, key, notFoundPlaceholder, seconds)", "return err"] := by decide
+
+/-! ### Round 5: whole decision trees (extract/c07.go `c07DecisionTree`: nested if / else-if, re-assigned variables as
+separate atoms) compared with the model's decision function `RM.doTakeClosure` for ALL outcomes of the cache read and
+of the query. -/
+
+theorem tie_decision_atoms :
+    doTakeClosureExitAtoms = ["err != nil", "errors.Is(err, errPlaceholder)", "errors.Is(err, c.errNotFound)",
+      "errors.Is(err, c.errNotFound)", "err != nil", "err != nil", "err != nil"] ∧
+    doTakeClosureExitExits = ["return nil, c.errNotFound", "return nil, err", "return nil, c.errNotFound", "return nil, err",
+      "return jsonx.Marshal(v)"] ∧
+    doGetCacheExitAtoms = ["err != nil", "len(data) == 0", "data == notFoundPlaceholder"] ∧
+    doGetCacheExitExits = ["return err", "return c.errNotFound", "return errPlaceholder", "return c.processCache(ctx, key, data, v)"] ∧
+    processCacheExitAtoms = ["err == nil", "e != nil"] ∧ processCacheExitExits = ["return nil", "return c.errNotFound"] ∧
+    doTakeExitAtoms = ["err != nil", "fresh"] ∧
+    doTakeExitExits = ["return err", "return nil", "return jsonx.Unmarshal(val.([]byte), v)"] := by decide
+
+open RM in
+/-- what the closure's three conditions on the cache-read error see, computed THROUGH the translated `doGetCache` and
+`processCache`: (err != nil, errors.Is(err, errPlaceholder), errors.Is(err, c.errNotFound)). -/
+def cacheErrAtoms (c : CacheRead) : Bool × Bool × Bool :=
+  let ex := doGetCacheExit (c == .error) (c == .empty) (c == .placeholder)
+  if ex = 0 then (true, false, false)                                          -- return err
+  else if ex = 1 then (true, false, true)                                      -- return c.errNotFound
+  else if ex = 2 then (true, true, false)                                      -- return errPlaceholder
+  else if processCacheExit (c == .row) false = 0 then (false, false, false)    -- processCache: return nil
+  else (true, false, true)                                                     -- processCache: return c.errNotFound
+
+open RM in
+/-- the return statement the model's decision function stands for. -/
+def closureExitOf (r : Closure) : Nat :=
+  match r.out, r.queried with
+  | .value, _ => 4 | .notFound, false => 0 | .error, false => 1 | .notFound, true => 2 | .error, true => 3
+
+open RM in
+/-- **the whole closure of `doTake`, semantically**: for every outcome of the cache read (redis / context error, no
+entry, placeholder, row, corrupt row) and of the query (row, not found, error), and whatever the two logging-only
+conditions are, the translated code reaches exactly the return statement `RM.doTakeClosure` says. -/
+theorem tie_doTake_decisions (c : CacheRead) (q : QueryRes) (setNfErr cacheValErr : Bool) :
+    doTakeClosureExit (cacheErrAtoms c).1 (cacheErrAtoms c).2.1 (cacheErrAtoms c).2.2 (q == .notFound) setNfErr (q != .row) cacheValErr
+      = closureExitOf (doTakeClosure c q) := by
+  cases c <;> cases q <;> cases setNfErr <;> cases cacheValErr <;> decide
+
+/-- after the flight: an error goes to every caller of the flight, the fresh caller keeps its own `v`, a joiner
+unmarshals the flight's bytes (rows r0 / w2 of `RM`: both return `cval` of the flight). -/
+theorem tie_doTake_after_flight_decisions : ∀ e f, doTakeExit e f = if e then 0 else if f then 1 else 2 := by decide
 
 end GoZero.C07.Tie
